@@ -45,3 +45,36 @@ func VerifC04Verdict() {
 	vAssert(vImplies(checks, (got == oDenied) == vAnd(matched, vNot(allow))), "C04.denied")
 	vAssert(vImplies(checks, (got == oNoMatch) == vNot(matched)), "C04.nomatch")
 }
+
+// VerifC04Incremental: the verdict is a function of what the authorizer holds when Authorize is called.
+// An authorizer that has already been asked once and is then given one more fact decides like a fresh
+// authorizer holding all of it (its own rules still apply to the new fact).
+func VerifC04Incremental() {
+	vForbidPanic("C04")
+	vTimerMode(0)
+	authority, blocks, z := gScenario()
+	g := gBuildToken(authority, blocks)
+	late := gConstAtom("late.f")
+	a, err := NewVerifier(g.tok, gPatient)
+	vAssert(err == nil, "C04.verifier")
+	if err != nil {
+		return
+	}
+	gLoad(a, z)
+	first := gClass(a.Authorize())
+	vObserve("first", first)
+	a.AddFact(Fact{late.pred()})
+	got := gClass(a.Authorize())
+	vObserve("class", got)
+	z2 := z
+	z2.facts = append(append([]gAtom{}, z.facts...), late)
+	checks, matched, allow := gReference(authority, blocks, z2)
+	vCover("decided")
+	if got == oAllow {
+		vCover("allow")
+	}
+	vAssert((got == oFailed) == vNot(checks), "C04.incremental.checks")
+	vAssert(vImplies(checks, (got == oAllow) == vAnd(matched, allow)), "C04.incremental.allow")
+	vAssert(vImplies(checks, (got == oDenied) == vAnd(matched, vNot(allow))), "C04.incremental.denied")
+	vAssert(vImplies(checks, (got == oNoMatch) == vNot(matched)), "C04.incremental.nomatch")
+}
